@@ -1093,7 +1093,8 @@ def c05_case(ctx, seed):
     rep = {"seed": seed, "victims": {k: list(v) for k, v in how.items()}}
     try:
         rep["manifest"] = open(t.path("build.ninja")).read()
-        k = rng.choice((1, 2, 0))
+        # (-k takes any number: one that does not fit an int means "no limit", like 0)
+        k = rng.choice((1, 2, 0, 1, 2, 0, 2 ** 31, 2 ** 32, 2 ** 32 + 1, 10 ** 12))
         args = ["-j%d" % rng.choice((1, 2, 4)), "-k", str(k)]
         what = "scenario %d (%s; victims %s)" % (seed, " ".join(args), {o: h[:2] for o, h in how.items()})
         rc, so, se = t.run(args)
@@ -1140,6 +1141,18 @@ def c05_case(ctx, seed):
                 ctx.violation("C05/e2e-dependent-started/%s" % kinds, "%s: %s started although %s failed" % (what, o, sorted(bad)), rep)
                 return
             ctx.count("e2e_dependent_checks")
+        # with no limit on failures, everything that does not depend on a failed command is started (nothing was built before)
+        if k == 0 or k >= 2 ** 31 - 1:
+            wanted = set(graph.closure(sc["defaults"] or gen.Gen.roots(sc)))
+            all_failing = {graph.producer[o]["id"] for o in how}
+            for s_ in cmds:
+                if s_["id"] not in wanted or s_["id"] in all_failing or (ancestors(s_["id"]) & all_failing):
+                    continue
+                ctx.count("e2e_independent_work_checks")
+                if s_["outs"][0] not in started:
+                    ctx.violation("C05/e2e-independent-work-not-started/k=%s" % ("0" if k == 0 else "huge"),
+                                  "%s: %s does not depend on a failed command and was never started" % (what, s_["outs"][0]), rep)
+                    return
         # nothing recorded for the failed ones
         log = t.read(".ninja_log") or b""
         recs = parse_build_log(log)[1]
